@@ -52,6 +52,86 @@ var c36AlphaF = []string{"```", "~~~", "~~~~", "`", "~", "a", "\n", " a`b"}
 
 var c36Widths = []int{0, 1, 5, 20}
 
+// Family G: ordered-list-marker look-alikes at the start of a paragraph
+// continuation line. Only a marker whose number is 1 - numerically: 1, 01,
+// 001 - can interrupt a paragraph, so whether the formatter may leave such a
+// line unescaped depends on the value of the number, not on its spelling.
+// Markers are written plainly, with the punctuation backslash-escaped, and
+// with the first digit as a character reference (the latter two are ways to
+// write the literal text that parse as a paragraph line in every position).
+var (
+	c36GNumbers = []string{"1", "01", "001", "2", "02", "10", "0", "00"}
+	c36GPuncts  = []string{".", ")"}
+)
+
+type c36GCase struct {
+	doc    string
+	widths []int
+}
+
+func c36GMarkers() []string {
+	var ms []string
+	for _, n := range c36GNumbers {
+		for _, p := range c36GPuncts {
+			ms = append(ms, n+p, n+"\\"+p, fmt.Sprintf("&#%d;%s%s", n[0], n[1:], p))
+		}
+	}
+	return ms
+}
+
+// c36GCases lists (a) every marker form in ten fixed line contexts (after a
+// paragraph line with and without following text, alone on the line, between
+// two lines, at the start of the document, indented, inside a blockquote and a
+// list item, and two marker lines in a row), at the standard widths; (b) every
+// prose paragraph of 3 or 4 words over {aa, b} with one word replaced by a
+// marker form, reflowed to every width from 1 to the length of the paragraph
+// (so that every possible line break, in particular the one right before the
+// marker, is taken).
+func c36GCases() []c36GCase {
+	var cases []c36GCase
+	ms := c36GMarkers()
+	for _, m := range ms {
+		for _, d := range []string{
+			"a\n" + m + " b", "a\n" + m, "a\n" + m + "\nb", "a\n" + m + " b\nc",
+			m + " b", m, "a\n   " + m + " b",
+			"> a\n> " + m + " b", "> a\n" + m + " b", "- a\n  " + m + " b", "1. a\n   " + m + " b",
+		} {
+			cases = append(cases, c36GCase{d, c36Widths})
+		}
+	}
+	for _, m1 := range ms {
+		for _, m2 := range ms {
+			cases = append(cases, c36GCase{"a\n" + m1 + " b\n" + m2 + " c", c36Widths})
+		}
+	}
+	fill := []string{"aa", "b"}
+	for k := 3; k <= 4; k++ {
+		for pos := 0; pos < k; pos++ {
+			for bits := 0; bits < 1<<uint(k-1); bits++ {
+				for _, m := range ms {
+					words := make([]string, k)
+					b := bits
+					for i := range words {
+						if i == pos {
+							words[i] = m
+							continue
+						}
+						words[i] = fill[b&1]
+						b >>= 1
+					}
+					doc := strings.Join(words, " ")
+					ws := []int{0}
+					for w := 1; w <= len(doc); w++ {
+						ws = append(ws, w)
+					}
+					cases = append(cases, c36GCase{doc, ws})
+				}
+			}
+		}
+	}
+	return cases
+}
+
 // c36Scan is a Codec that looks at the parse of a document: which block and
 // inline operations occur (coverage class, root-cause attribution) and whether
 // the document uses one of the two documented unsupported features:
@@ -263,14 +343,15 @@ func c36OutFlags(src, out string) string {
 	return fl
 }
 
-// c36One checks one document at all widths; returns the coverage class.
-func c36One(c *vk.Ctx, l *vk.Local, fs *c36Findings, src string) string {
+// c36One checks one document at the given widths (the first must be 0);
+// returns the coverage class.
+func c36One(c *vk.Ctx, l *vk.Local, fs *c36Findings, src string, widths []int) string {
 	orig := c36ScanOf(src, false)
 	documentedUnsupported := orig.nested || orig.consec
 	noWidthJudgement := orig.blocks&(1<<uint(md.OpHeading)|1<<uint(md.OpCodeBlock)|1<<uint(md.OpHTMLBlock)) != 0
 	htmlOrig := ""
 	class := ""
-	for _, w := range c36Widths {
+	for _, w := range widths {
 		codec := &md.FmtCodec{Width: w}
 		var out string
 		if p := vk.Try(func() { out = md.RenderString(src, codec) }); p != "" {
@@ -349,7 +430,7 @@ func TestVerifC36(t *testing.T) {
 		nd := vk.Pick(c, 6, 7)
 		ne := vk.Pick(c, 5, 6)
 		nf := vk.Pick(c, 6, 7)
-		c.Rule(fmt.Sprintf("every document of <=%d tokens over the 20-token alphabet A %q, every document of <=%d tokens over the 22-token alphabet B %q every document of <=%d tokens over the 13-token alphabet C %q, every document of <=%d tokens over the 8-token alphabet D %q, every document of <=%d tokens over the 10-token alphabet E %q and every document of <=%d tokens over the 8-token alphabet F %q, length-lexicographic, each formatted with widths %v and each output formatted once more; class = (set of block op types, set of inline op types, documented-unsupported flags, which escape forms the width-0 output uses)", na, c36AlphaA, nb, c36AlphaB, nc, c36AlphaC, nd, c36AlphaD, ne, c36AlphaE, nf, c36AlphaF, c36Widths))
+		c.Rule(fmt.Sprintf("every document of <=%d tokens over the 20-token alphabet A %q, every document of <=%d tokens over the 22-token alphabet B %q every document of <=%d tokens over the 13-token alphabet C %q, every document of <=%d tokens over the 8-token alphabet D %q, every document of <=%d tokens over the 10-token alphabet E %q every document of <=%d tokens over the 8-token alphabet F %q, length-lexicographic, each formatted with widths %v and each output formatted once more; and family G (both tiers): every ordered-list-marker look-alike with number in %q and punctuation in %q, written plainly, with the punctuation backslash-escaped and with the first digit as a character reference, in 11 line contexts (after a paragraph line with/without following text, alone on the line, at the start of the document, indented, in a blockquote, after a blockquote line, in bullet and ordered list items) and every pair of them on two consecutive continuation lines at those widths, plus every paragraph of 3-4 words over {aa, b} with one word replaced by such a marker form reflowed to every width from 1 to the length of the paragraph; class = (set of block op types, set of inline op types, documented-unsupported flags, which escape forms the width-0 output uses)", na, c36AlphaA, nb, c36AlphaB, nc, c36AlphaC, nd, c36AlphaD, ne, c36AlphaE, nf, c36AlphaF, c36Widths, c36GNumbers, c36GPuncts))
 		c.Assume("'renders to the same HTML' is observed with the package's own parser and HTMLCodec (their agreement with CommonMark is C35's subject), with md.UnescapeHTML = html.UnescapeString as in cmd/elvmdfmt",
 			"documents with nested or consecutive (strong) emphasis - decided by the harness from the parse of the document, as documented on FmtUnsupported - are not judged",
 			"line width is judged only for documents without headings, code blocks and HTML blocks, and only for lines that have a space in their content and no '<', link or code span, as in the upstream fuzz property",
@@ -358,7 +439,7 @@ func TestVerifC36(t *testing.T) {
 		run := func(alpha []string, n int) {
 			c.EnumSeqs(len(alpha), n, func(l *vk.Local, idx []int) {
 				src := vk.Join(alpha, idx)
-				l.Case(c36One(c, l, fs, src))
+				l.Case(c36One(c, l, fs, src, c36Widths))
 				if len(idx) == n && idx[0] == 8%len(alpha) && idx[1] == 5 && idx[n-1] == 0 {
 					c.Sample(src)
 				}
@@ -370,6 +451,15 @@ func TestVerifC36(t *testing.T) {
 		run(c36AlphaD, nd)
 		run(c36AlphaE, ne)
 		run(c36AlphaF, nf)
+		gcases := c36GCases()
+		c.Set("family_G_documents", len(gcases))
+		c.Parallel(len(gcases), func(l *vk.Local, i int) {
+			cl := c36One(c, l, fs, gcases[i].doc, gcases[i].widths)
+			l.Case("G/" + cl)
+			if i%997 == 0 {
+				c.Sample(gcases[i].doc)
+			}
+		})
 		c.Set("not_judged_documented_unsupported", fs.unsupported.Load())
 		c.Set("width_not_judged_heading_code_html_block", fs.noWidth.Load())
 		keys := make([]string, 0, len(fs.m))
